@@ -68,6 +68,9 @@ def check_variant(ctx, k, kind, bound):
     p = ctx.sym("p", 64)
     if "_vol" in k or k == "k_cav_volptr_long":
         ctx.assume(z3.UGE(p, base), z3.ULE(p - base, BV(SIZE - 4, 64)))
+    elif kind == "arr":
+        # these kernels dereference the pointer themselves before calling rlbox: the application has null-checked it
+        ctx.assume(ctx.in_region(p, base, SIZE))
     else:
         ctx.assume(z3.Or(p == 0, ctx.in_region(p, base, SIZE)))
     args = [base, p]
@@ -84,6 +87,10 @@ def check_variant(ctx, k, kind, bound):
         nd = [e for e in q.events if e[0] == "null-deref"]
         if nd:
             ctx.fail(q, "access through a null pointer at address 0x%x (%s)" % (nd[0][2], nd[0][1]))
+        # a null tainted pointer is a value the sandbox can always produce: no variant may dereference it
+        acc = [e[1] for e in q.events if e[0] in LD + ("st", "st-bulk") and not isinstance(e[1], int) and not symex.is_conc(symex.simp(e[1]))]
+        if acc:
+            ctx.require(q, z3.And(*[z3.UGE(a, BV(0x10000, 64)) for a in acc]), "no access through a null (or near-null) pointer whatever the sandbox supplies")
         if q.status != "ret":
             continue
         lg = [e for e in (q.user.get("log") or []) if e[0] == 5]
